@@ -14,14 +14,14 @@ func cfgC06(tier string) e1Cfg {
 	// Interlope: in half of the histories other clients commit between the operations of the observed
 	// transaction (e.g. between a failed insert of a transaction that carries on and its rollback)
 	return e1Cfg{Prop: "C06", Kinds: allKinds, LateKinds: []Kind{KInt, KString, KEnum}, KeyedPct: 25, LayoutPct: 50, Steps: steps(tier, 90, 300), Pool: "edge",
-		Replica: true, NIdx: 3, NSorted: 1, PIdxChg: 3, PNewCol: 1, Txn: t, DumpEvery: 2, Oracles: oracleSet("replica"), DensePct: 8, Interlope: true}
+		Replica: true, NIdx: 3, NSorted: 1, PIdxChg: 3, PNewCol: 1, Txn: t, DumpEvery: 2, Oracles: oracleSet("replica"), DensePct: 8, Interlope: true, PDelAll: 2}
 }
 
 func cfgC15(tier string) e1Cfg {
 	t := baseTxn()
 	t.PAbort, t.PFailInsert = 20, 12
 	return e1Cfg{Prop: "C15", Kinds: []Kind{KInt, KInt16, KUint64, KFloat64, KBool, KString, KStringCat, KEnum, KRecord}, KeyedPct: 25, LayoutPct: 60, Steps: steps(tier, 130, 400), Pool: "edge",
-		NIdx: 1, Txn: t, DumpEvery: 16, Oracles: oracleSet("stream"), FlakyLogPct: 25}
+		NIdx: 1, Txn: t, DumpEvery: 16, Oracles: oracleSet("stream"), FlakyLogPct: 25, PDelAll: 2}
 }
 
 func e1PhaseFor(cfg func(string) e1Cfg, quick, thorough int) (func(string) Plan, func(*W, int)) {
